@@ -44,10 +44,10 @@ RecOf(t) ==
                 ELSE t.origin \in {0, 6, 7} /\ t.itype # -1,
      free   |-> t.wsec = 0 /\ t.origin # 0,
      frag   |-> t.origin \in {1, 2, 7},
-     alvl   |-> IF Len(t.alin) > 0 THEN t.alin[1].lvl ELSE 1,
-     adesc  |-> IF Len(t.alin) > 0 THEN t.alin[1].desc ELSE 10]
+     alvl   |-> IF t.alvl >= 0 THEN t.alvl ELSE 1,
+     adesc  |-> IF t.adesc >= 0 THEN t.adesc ELSE 10]
 
-TicketAcked == 4      \* SESS_TICKET_STATE_RECVD_EXT
+TicketAcked == 3      \* SESS_TICKET_STATE_RECVD_EXT (enum sessionTicketState_e, USE_EAP_FAST off)
 
 CfgOf(t, s) ==
     [kx      |-> IF t.kx \in KxAll THEN t.kx ELSE "null",
@@ -58,6 +58,7 @@ CfgOf(t, s) ==
      early   |-> t.hs = "T13_WAIT_EOED",
      fam     |-> IF t.ver = "T13" THEN "T13" ELSE "L",
      dtls    |-> s.cfg.dtls,
+     limbo   |-> s.role = "C" /\ t.tick = 4,       \* SESS_TICKET_STATE_IN_LIMBO
      retry   |-> t.hs = s.hs]
 
 ObsDead(t, s) == t.err = 1 \/ t.closed = 1 \/ FatalSealed(t) \/ t.rc = "Error" \/ s.dead # "no"
@@ -69,15 +70,15 @@ MatchRecv(t, s, r, res) ==
     LET n == res.next IN
     /\ ~res.loose => Gates(t) = res.gate /\ Accs(t) = res.acc
     \* still waiting for the rest of a record/message: nothing was accepted, reported or changed
-    /\ (res.loose /\ Live(n)) => Accs(t) = <<>> /\ Len(t.alin) = 0 /\ t.rc = "RequestRecv"
+    /\ (res.loose /\ Live(n)) => Accs(t) = <<>> /\ Len(t.alin) = 0 /\ t.rc \in {"RequestRecv", "Success"}
     /\ Len(t.dlv) = res.ndlv
     /\ r.gen => \A i \in 1..Len(t.dlv) : t.dlv[i].ok = 1  \* what is delivered is what the peer application sent
     /\ ObsDead(t, s) = (n.dead # "no")
     /\ (n.dead = "closed" /\ Live(s)) => t.closed = 1
     /\ (n.dead = "fatalrcvd" /\ Live(s)) => t.err = 1
-    /\ Live(s) => (res.alertOut = FatalSealed(t) \/ s.cfg.dtls)
+    /\ (Live(s) /\ ~res.loose) => (res.alertOut = FatalSealed(t) \/ s.cfg.dtls)
     /\ (Live(s) /\ ~res.loose) => (HasR(t) = res.rpass)
-    /\ Live(n) =>
+    /\ (Live(n) /\ ~res.loose) =>
           /\ t.hs = n.hs
           /\ (t.rs = 1) = ReadSecure(n)
     /\ (t.rc = "HandshakeComplete" \/ t.hc = 1) => (n.done \/ s.done)
